@@ -7,6 +7,10 @@ TECH = "bounded symbolic execution of the real code's go/ssa form, every branch/
 BASE = "cd /repo && go test -vet=off -count=1 -timeout 25m ./..."
 
 CLAIMED = {
+ "C11": dict(
+   text="(1) Inductive step of Claim, Commit, Consume, Reset (+FreeSpace/UsedSpace/Full/Size) from an ARBITRARY state of a buffer of any size = m pages, 1 <= m <= 2^28 (symbolic, so every power-of-two and non-power-of-two multiple), with every amount n >= 0 incl. above free/used: the invariant 0<=used<=size, 0<=head,tail<size, tail == (head+used) mod size, used+free == size is re-established; a claim is min(n, free) long, contiguous from &slice[tail], and no byte of it (ring position at an arbitrary offset) lies among the committed-unconsumed bytes; commits occupy consecutive ring positions; Consume frees the oldest bytes. (2) The real constructor on the environment model for every requested size in [-8192, 2^40] with every system call free to fail: accepts exactly the positive sizes, rounds up to a page multiple, maps both halves of the slice from the file, leaves no descriptor / temporary file behind, holds one mapping while alive which Destroy releases (idempotent); every failing path leaves no descriptor, file or mapping.",
+   note="Not applicable clause: that the two mappings are physically the same memory (a kernel fact; the repository's own tests exercise it on real memory). /dev/shm vs fallback directory is a symbolic choice of the model.",
+   ref="DESIGN.md §4 C11"),
  "C08": dict(
    text="All histories of k=3/4 events from the active state, the harness acting as peer and application: peer Ping (payload 0/2/125 bytes, symbolic), Pong, data, valid Close (no status, 1000, 3000+reason, any other legal code), invalid Close (1-byte payload, code 1005, non-UTF-8 reason), protocol violation, transport EOF; local Write/AsyncWrite, Flush, Close; reads through NextFrame or AsyncNextFrame. A ghost RFC 6455 state machine gives the expected State() and the exact list of frames the client must send. After every event: State() matches, every frame on the wire is whole, masked, and is the next expected one (one Pong per Ping received while active with identical payload, in arrival order and ahead of later application frames; Pongs unanswered; peer Close echoed once with its code, 1000 if none, 1002 if invalid; local Close refuses later writes while reads go on until the peer's Close; EOF surfaces as a 1006 Close frame), at most one Close frame and nothing after it, and what is not yet on the wire is exactly what is queued; after a final Flush everything due was sent with byte-identical payloads.",
    note="Quick tier delivers each peer frame in one read (segmentation is C06's subject), thorough in <= 2; close reasons longer than 2 bytes and the server role are outside; a read attempted in a terminal stage may move State() to StateTerminated (accepted).",
